@@ -25,6 +25,9 @@ type Case struct {
 	ViewBox [4]ops.F32 `json:"viewbox"`
 	Rect    [4]int     `json:"rect"` // x0, y0, w, h
 	Ops     []ops.Op   `json:"ops"`  // one or more complete paths
+	// PrevRect, when its size is non-zero: the Renderer was pointed at this
+	// rectangle (and drew a path there) before being re-pointed to Rect.
+	PrevRect [4]int `json:"prev_rect,omitempty"`
 }
 
 const eps32 = 1.0 / (1 << 23)
@@ -38,6 +41,15 @@ func checkGeometry(c Case) error {
 	rect := image.Rect(c.Rect[0], c.Rect[1], c.Rect[0]+c.Rect[2], c.Rect[1]+c.Rect[3])
 	rr := &rast.Recorder{NoLattice: true}
 	var z render.Renderer
+	if c.PrevRect[2] > 0 && c.PrevRect[3] > 0 {
+		// an earlier use of the same Renderer with another target
+		z.SetRasterizer(&rast.Recorder{NoLattice: true}, image.Rect(c.PrevRect[0], c.PrevRect[1], c.PrevRect[0]+c.PrevRect[2], c.PrevRect[1]+c.PrevRect[3]))
+		z.Reset(gen.VB(vb), ivg.DefaultPalette)
+		z.StartPath(0, 1, 1)
+		z.AbsLineTo(2, 3)
+		z.AbsQuadTo(4, 5, 6, 7)
+		z.ClosePathEndPath()
+	}
 	z.SetRasterizer(rr, rect)
 	z.Reset(gen.VB(vb), ivg.DefaultPalette)
 	ops.ApplyAll(&z, c.Ops)
@@ -139,6 +151,12 @@ func genCase(t *rapid.T) Case {
 	if rapid.IntRange(0, 4).Draw(t, "origin") == 0 {
 		c.Rect[0], c.Rect[1] = 0, 0
 	}
+	switch rapid.IntRange(0, 3).Draw(t, "prev") {
+	case 0: // re-pointed to a rectangle of the same size elsewhere
+		c.PrevRect = [4]int{c.Rect[0] + rapid.IntRange(-40, 40).Draw(t, "pdx"), c.Rect[1] + rapid.IntRange(-40, 40).Draw(t, "pdy"), c.Rect[2], c.Rect[3]}
+	case 1: // re-pointed to any other rectangle
+		c.PrevRect = [4]int{rapid.IntRange(-50, 200).Draw(t, "px"), rapid.IntRange(-50, 200).Draw(t, "py"), rapid.IntRange(1, 600).Draw(t, "pw"), rapid.IntRange(1, 600).Draw(t, "ph")}
+	}
 	num := func(t *rapid.T, l string) float32 { return gen.Moderate(t, l, 200) }
 	np := rapid.IntRange(1, 3).Draw(t, "paths")
 	for p := 0; p < np; p++ {
@@ -193,6 +211,12 @@ func classify(c Case) (bool, []string) {
 	}
 	if c.Rect[0] != 0 || c.Rect[1] != 0 {
 		labels = append(labels, "rect-off-origin")
+	}
+	if c.PrevRect[2] > 0 {
+		labels = append(labels, "renderer-re-pointed")
+		if c.PrevRect[2] == c.Rect[2] && c.PrevRect[3] == c.Rect[3] && (c.PrevRect[0] != c.Rect[0] || c.PrevRect[1] != c.Rect[1]) {
+			labels = append(labels, "re-pointed-same-size-other-origin")
+		}
 	}
 	if smooth {
 		labels = append(labels, "has-smooth-op")
